@@ -59,6 +59,9 @@ pub struct Layout {
     /// specification's lookup treats every entry on its own, and writers that keep low zooms in the root do this)
     #[serde(default)]
     pub inline: u32,
+    /// the last entry is moved so that its run ends on the last tile id of the domain (z31, end of the curve)
+    #[serde(default)]
+    pub to_end: bool,
 }
 
 /// Hostile edits applied while assembling (C08): varint values of chosen directories, header
@@ -369,6 +372,13 @@ fn build_plain(l: &Layout) -> Built {
         }
         ids.push((id, run, pick(e.sel, contents.len())));
         next = id + u64::from(run);
+    }
+    if l.to_end {
+        if let Some((id, run, ci)) = ids.pop() {
+            let prev_end = ids.last().map_or(0, |x| x.0 + u64::from(x.1));
+            let moved = end - u64::from(run);
+            ids.push((if moved >= prev_end { moved } else { id }, run, ci));
+        }
     }
     let mut data: Vec<u8> = Vec::new();
     let mut tile_entries: Vec<SEntry> = Vec::with_capacity(ids.len());
